@@ -189,10 +189,10 @@ func TestVerif_C01(t *testing.T) {
 			blockOps = c01Ops("B(k=v)", "B(k=w)", "B(=)", "B(big=z*100)", "B(S:k=v)",
 				"Peer(0)", "Peer(33)", "Peer(70)", "Peer(4096)", "Limit(70)", "Limit(4096)")
 		}
-		dBlocks := vx.Pick(c, 7, 9)
+		dBlocks := vx.Pick(c, 7, 10)
 		// sizes above the 4096 default need Limit(16384) first: a small alphabet of their own
 		largeOps := c01Ops("B(k=v)", "B(big=z*100)", "Peer(70)", "Peer(4096)", "Peer(8192)", "Limit(4096)", "Limit(16384)")
-		dLarge := vx.Pick(c, 6, 8)
+		dLarge := vx.Pick(c, 6, 12)
 		ops := vx.Pick(c, quickOps, thoroughOps)
 		seeds := [][]c01Op{
 			c01Ops("F(k=v)", "End"),
